@@ -99,6 +99,10 @@ func vIdList(s interface{ Members() []int }) []int {
 }
 
 func vDumpPool(p *policy, n Node) vPool {
+	// p.pools holds the embedded *node (DepthFirst is a method of node): get the outer type back
+	if b, ok := n.(*node); ok && b.self.node != nil {
+		n = b.self.node
+	}
 	r := vPool{Name: n.Name(), Kind: string(n.Kind()), Depth: n.RootDistance(), Enum: n.NodeID(), PhysID: -1, PhysPkg: -1,
 		Children: []string{}}
 	if !n.IsRootNode() {
